@@ -21,13 +21,13 @@ var (
 type sepStyle int
 
 const (
-	sepSpace    sepStyle = iota // single spaces
-	sepTight                    // nothing where the lexical rules allow it
-	sepBlank                    // random whitespace including line breaks
-	sepComment                  // random whitespace and comments
-	sepFlat                     // random whitespace/comments without line breaks
-	sepNewline                  // every token on its own line
-	sepCRLF                     // every token on its own line, \r\n
+	sepSpace   sepStyle = iota // single spaces
+	sepTight                   // nothing where the lexical rules allow it
+	sepBlank                   // random whitespace including line breaks
+	sepComment                 // random whitespace and comments
+	sepFlat                    // random whitespace/comments without line breaks
+	sepNewline                 // every token on its own line
+	sepCRLF                    // every token on its own line, \r\n
 )
 
 // joinTokens writes the tokens with separators of the given style.  A
